@@ -593,7 +593,7 @@ func c04DuplicateMembers(c *mon.Ctx) {
 			}
 			orig := ref.MustParse(ev.JSON())
 			origContent := orig.Get("content").Clone()
-			for _, order := range []string{"forged-first", "forged-last"} {
+			for _, order := range []string{"forged-first", "forged-last", "forged-first-escaped-name"} {
 				tv := orig.Clone()
 				tv.Get("content").Set("injected_by_relay", ref.S("not what the sender wrote"))
 				// the hash the library computes: over the event minus signatures / unsigned and minus ONE hashes member
@@ -607,10 +607,14 @@ func c04DuplicateMembers(c *mon.Ctx) {
 				forged := ref.Member{Key: "hashes", Val: ref.O("sha256", ref.S(base64.RawStdEncoding.EncodeToString(h[:])))}
 				if order == "forged-first" {
 					tv.O = append([]ref.Member{forged}, tv.O...)
-				} else {
+				} else if order == "forged-last" {
 					tv.O = append(tv.O, forged)
 				}
 				text := gen.Plain().Bytes(tv)
+				if order == "forged-first-escaped-name" {
+					// the forged copy's name spelled with an escape: the same name to every JSON reader
+					text = append([]byte(`{"h\u0061shes":`+string(gen.Plain().Bytes(forged.Val))+`,`), text[1:]...)
+				}
 				c.Case("duplicate-member:hashes:"+order+":"+string(ver), map[string]any{"version": ver, "event": string(text)}, func() {
 					c.NontrivialBytes(append([]byte(string(ver)+"|dup|"), text...))
 					c.Count("duplicate_member_cases")
